@@ -141,13 +141,36 @@ def obligations(chk, prop, variants=None):
         for name, d in r['obs'].items():
             o = ob(name)
             o.paths += d['paths']
+            if d.get('cands'):
+                o.cands = (getattr(o, 'cands', None) or []) + list(d['cands'])
             if d['verdict'] == 'violated' and o.verdict != 'violated':
                 o.verdict, o.detail, o.model, o.res = 'violated', d['detail'], d['model'], d['res']
             elif d['verdict'] == 'inconclusive' and o.verdict == 'holds':
                 o.verdict, o.detail = 'inconclusive', d['detail']
+    def interleaved(res):
+        # linearisations in which a feature starts while another one is open come first
+        open_, worst = set(), 0
+        for e in res['in_desc']:
+            if e[0] == 'feature':
+                (open_.add if e[2] == 'Started' else open_.discard)(e[1])
+                worst = max(worst, len(open_))
+        return -worst
     for name, o in obs.items():
         if o.verdict == 'violated' and getattr(o, 'res', None):
-            confirm(chk, o, name)
+            cands = sorted(getattr(o, 'cands', None) or [(o.res, o.detail)], key=lambda c: interleaved(c[0]))[:5]
+            base = o.detail
+            for res_, why_ in cands:
+                o.verdict, o.res, o.detail = 'violated', res_, why_
+                confirm(chk, o, name)
+                if o.verdict == 'violated':
+                    break
+    for name, o in obs.items():
+        if o.verdict == 'violated' and not getattr(o, 'res', None):
+            # a path that ended in a panic has no complete linearisation to replay: it is reported only through the other
+            # obligations (a native panic counts as their reproduction)
+            confirmed = [x for x in obs.values() if x.verdict == 'violated' and getattr(x, 'replay', None)]
+            o.verdict = 'inconclusive'
+            o.detail += ' | no linearisation to replay natively%s' % (' (see %s)' % confirmed[0].name if confirmed else '')
     # translator validation: explored linearisations replayed natively must give the same output and the same
     # per-item delivery counts as the symbolic execution
     samples = [x for r in results for x in r.get('samples', [])]
@@ -305,6 +328,8 @@ def _explore(chk, variant, prefix):
                 o['detail'] = '%s (poset %s)' % (err, variant)
                 o['model'] = {'poset': variant, 'input': res['input'], 'output': [str(x) for x in res['output']]}
                 o['res'] = res
+            if err and len(o.setdefault('cands', [])) < 6:
+                o['cands'].append((res, '%s (poset %s)' % (err, variant)))
     samples = []
     orig_on_end = on_end
 
@@ -567,12 +592,12 @@ def _reference(inp):
     return out, counts
 
 
-def native(chk, res, tag):
+def native(chk, res, tag, same_content=False):
     """-> (outputs, afters) of the real Normalize on the linearisation, or None"""
     import os
     import re
     from checks import replay
-    lines = ['mode stream', 'wrapper normalize']
+    lines = ['mode stream', 'wrapper normalize'] + (['same_content'] if same_content else [])
     for e in res['in_desc']:
         if e == ('error',):
             lines.append('item parse_error')
@@ -589,7 +614,7 @@ def native(chk, res, tag):
             lines.append('item scenario %s %s %s %s r=%s' % (e[1], '-' if e[2] is None else 'r', e[3], e[5].lower(), r))
     d = os.path.join(common.EVID, 'replay')
     os.makedirs(d, exist_ok=True)
-    path = os.path.join(d, '%s-normalize-%s.script' % (chk.prop, re.sub(r'[^a-z0-9]+', '-', tag)))
+    path = os.path.join(d, '%s-normalize-%s%s.script' % (chk.prop, re.sub(r'[^a-z0-9]+', '-', tag), '-same-content' if same_content else ''))
     r, out = replay.run_script('\n'.join(lines) + '\n', path, timeout=60)
     chk.replays += 1
     if r is None:
@@ -601,27 +626,32 @@ def native(chk, res, tag):
         if ln.startswith('LOG '):
             outs.append(parse_native(ln[4:]))
     chk.last_native = path
+    chk.last_panics = re.findall(r'^PANIC (\d+)$', out, re.M)
     return outs, afters
 
 
 def confirm(chk, o, name):
     """Native replay: the violating linearisation through the real `Normalize::new(recorder)` (driver mode `stream`)."""
     res = o.res
-    got = native(chk, res, name)
-    if got is None:
-        o.verdict = 'inconclusive'
-        o.detail += ' | native replay failed: %s' % chk.last_native
-        return
-    outs, afters = got
-    path = chk.last_native
-    errs = judge({'in_desc': res['in_desc'], 'output': outs, 'after': afters})
-    if errs.get(name):
-        chk.replay_files.append(path)
-        o.replay = path
-        o.detail += ' | reproduced natively through the real Normalize: %s' % errs[name]
-    else:
-        o.verdict = 'inconclusive'
-        o.detail += ' | not reproduced natively (the real Normalize output satisfies the checker on this linearisation)'
+    # second try: the same linearisation with features (rules, scenarios) that are DISTINCT allocations of EQUAL gherkin values
+    # (the same file given twice) - the map keys of Normalize are identities, not contents
+    for same in (False, True):
+        got = native(chk, res, name, same_content=same)
+        if got is None:
+            continue
+        outs, afters = got
+        path = chk.last_native
+        errs = judge({'in_desc': res['in_desc'], 'output': outs, 'after': afters})
+        why = errs.get(name)
+        if getattr(chk, 'last_panics', None):
+            why = 'the real Normalize panicked while handling item %s%s' % (chk.last_panics[0], '; ' + why if why else '')
+        if why:
+            chk.replay_files.append(path)
+            o.replay = path
+            o.detail += ' | reproduced natively through the real Normalize%s: %s' % (' (features of equal content)' if same else '', why)
+            return
+    o.verdict = 'inconclusive'
+    o.detail += ' | not reproduced natively (the real Normalize output satisfies the checker on this linearisation, also with features of equal content)'
 
 
 def parse_native(s):
